@@ -21,3 +21,7 @@ open StarsimModel.C03
 #print axioms C03_draw_indep_of_history
 #print axioms getsInfected_extension
 #print axioms C03_extension_invariance
+#print axioms C03_grow_slots_before_defaults
+#print axioms C03_newborn_default_by_slot
+#print axioms C03_newborn_default_world_independent
+#print axioms C03_grow_order_counterexample
